@@ -62,9 +62,10 @@ class Schema:
 
 
 class Gen:
-    def __init__(self, rng, size=1.0, naming=None):
+    def __init__(self, rng, size=1.0, naming=None, absent=()):
         self.rng = rng
         self.size = size
+        self.absent = set(absent)   # features left out of the WHOLE schema: "oneof", "optional", "repeated", "map"
         self.naming = naming     # object with cls(flat), fld(name), mem(name, enum): used only to stay inside the guards
         self.s = Schema()
         self.types = []          # all TypeDecl (messages + enums), all files
@@ -369,7 +370,7 @@ class Gen:
         i = 0
         while i < nfields:
             r = rng.random()
-            if r < 0.12 and not rng.random() < 0:      # oneof
+            if r < 0.12 and "oneof" not in self.absent:      # oneof
                 on = self.fresh(ONEOF_NAMES, used_names)
                 used_py.add(on)
                 k = rng.randint(1, 4)
@@ -385,7 +386,7 @@ class Gen:
                 self.s.features["oneof"] += 1
                 i += k
                 continue
-            if r < 0.30:                                # map
+            if 0.12 <= r < 0.30 and "map" not in self.absent:   # map
                 kt = rng.choice(MAP_KEYS)
                 vt, tag, dep = self.field_type(fi, t, for_map_value=True)
                 self.note_import(fi, dep)
@@ -417,7 +418,7 @@ class Gen:
             ty, tag, dep = self.field_type(fi, t)
             self.note_import(fi, dep)
             n = fname()
-            lab = rng.choice(["", "", "", "optional ", "repeated ", "repeated "])
+            lab = rng.choice([x for x in ["", "", "", "optional ", "repeated ", "repeated "] if x.strip() not in self.absent])
             self.s.features[(lab.strip() or "singular") + "_" + tag] += 1
             self.s.features["label_" + (lab.strip() or "singular")] += 1
             out.append(self.comment(pad + "  ") + "%s  %s%s %s = %d%s;%s" % (pad, lab, ty, n, fnum(), opts(n), self.trailing()))
@@ -504,8 +505,20 @@ class Gen:
         return self.s
 
 
-def gen_schema(rng, size=1.0, naming=None):
-    return Gen(rng, size, naming).run()
+ABSENT = [{"oneof"}, {"optional"}, {"oneof", "repeated", "map"}, {"map"}, {"repeated"}, {"oneof", "optional"}, {"oneof", "map"},
+          {"optional", "repeated", "map"}, {"oneof", "repeated"}, {"repeated", "map"}, {"oneof", "optional", "repeated", "map"}]
+
+
+def gen_schema(rng, size=1.0, naming=None, index=None):
+    """`index`: position of the schema in the run — every third schema leaves a fixed subset of the features oneof /
+    optional / repeated / map out of the whole schema (imports and helpers of the generated module are gated on
+    "some message uses X")"""
+    absent = ABSENT[(index // 3) % len(ABSENT)] if index is not None and index % 3 == 2 else ()
+    g = Gen(rng, size, naming, absent)
+    s = g.run()
+    if absent:
+        s.features["schema_without_" + "_".join(sorted(absent))] += 1
+    return s
 
 
 if __name__ == "__main__":
